@@ -41,7 +41,8 @@ class Gen:
         out = []
         for _ in range(self.rng.choice([1, 1, 2])):
             args = [self.rng.choice(["a", "b1", "x y", "q,r", "z\"w", "ü", "", "back\\slash", "trailing\\", "\\", "\"", "q\\\"", "\\\\"]) for _ in range(self.rng.choice([0, 0, 1, 2]))]
-            out.append(("x::" + self.rng.choice(["one", "two", "struct", "int32"]), args))
+            # foreign directives, also ones whose last segment spells a built-in directive: only the whole directive says what an attribute is
+            out.append((self.rng.choice(["x::one", "x::two", "x::struct", "x::int32", "x::one", "x::two", "foo::deprecated", "cs::allow", "bar::baz::oneway", "x::compress", "y::slicedFormat", "deprecated::x"]), args))
         return out
 
     def spelling(self, d, from_module):
